@@ -83,7 +83,11 @@ Inductive case :=
 (* fpsFromNs: raw = the value of 1/(ns*1e-9) computed by the harness, obs = what the function returned *)
 | CFps (raw obs : fnum)
 (* a history on a real relay and the identities listed after it (stats topic or /status) *)
-| CHist (evs : list event) (obs : list ident).
+| CHist (evs : list event) (obs : list ident)
+(* arrival times (ms) of successive reports at a viewer that asks for updates in bursts, and how many
+   reports each websocket message carried: the rate limit keeps reports a second apart (600 ms are
+   demanded of the arrival times, which jitter) and so one report per message *)
+| CRate (arrivals : list Z) (per_message : list N).
 
 Definition case_ok (c : case) : bool :=
   match c with
@@ -104,6 +108,9 @@ Definition case_ok (c : case) : bool :=
   | CParse s obs => option_eqb Z.eqb (parse_duration_bytes s) obs
   | CFps raw obs => fnum_eqb (fps_from_ns raw) obs
   | CHist evs obs => multiset_eqb ident_eqb (map ident_of_member (listed (hub_run evs))) obs
+  | CRate arrivals per_message =>
+    gaps_geb 600 arrivals
+    && list_eqb N.eqb (map (fun g => N.of_nat (length g)) (messages arrivals (map (fun _ => 0%Z) arrivals))) per_message
   end.
 
 (* non-trivial: the model run gets past its first guard *)
@@ -115,6 +122,7 @@ Definition case_nontrivial (c : case) : bool :=
   | CParse s _ => match parse_duration_bytes s with Some _ => true | None => false end
   | CFps raw _ => match raw with NonFinite => true | _ => false end
   | CHist evs _ => Nat.leb 2 (length (listed (hub_run evs)))
+  | CRate arrivals _ => Nat.leb 3 (length arrivals)
   end.
 
 Definition mismatches (cs : list case) : list N := mismatch_idx case_ok 0 cs.
